@@ -215,6 +215,21 @@ check("C18",
       AMP_NOTE + " Spin letter / J of the pool resonances and the table of supported spin structures are reference data.",
       "DESIGN.md section 5, C18")
 
+check("C19",
+      "TLA+ model of a generated program as declare / use / amplitude events (spec/AmpEmit.tla: DeclaredBeforeUse, model "
+      "equality clauses); both generated programs recorded as event traces - the Python text by executing it against a "
+      "recording goofit stand-in - and validated by TLC",
+      "For the shipped model and generated four-body files (all supported spin structures and lineshape kinds with their "
+      "spline / K-matrix parameter families, fixed and free couplings, fit parameters) both converters are run with and "
+      "without ret_output (and through `python -m decaylanguage -G ...` for a subset). The Python text is compiled and executed "
+      "in a recording namespace (every assignment a declaration, every look-up a use, an undeclared symbol a NameError); the "
+      "C++ text is scanned. TLC judges declared-before-use for both, equality of event type, mass constants, resonance "
+      "variables, fit parameters (name, value, error, fixedness) and of the amplitude list (coefficient names, values, "
+      "fixedness, spin factors, lineshapes, counts), distinct _r/_i names, amplitudes once each in input order, returned = "
+      "printed, and the command line giving the same lines.",
+      AMP_NOTE + " The C++ text is read with regular expressions; sA_0 is exempt for the shipped model, which does not define sA0.",
+      "DESIGN.md section 5, C19")
+
 ALL = [f"C{i:02d}" for i in range(1, 21)]
 
 
